@@ -568,6 +568,32 @@ func classifyFork(net *world.VbftNet, h uint32, a, b common.Uint256) string {
 	}
 	if pa, ok := propOf[a]; ok {
 		if pb, ok2 := propOf[b]; ok2 && pa == pb {
+			// one proposal carries two signed hashes (the block and its empty variant). Two
+			// different proposals of one proposer are something else when that proposer is
+			// honest and never crashed: an honest node proposes once per round
+			// positive evidence only: both hashes are seen as block hashes of two proposals
+			// held by the nodes (an empty variant is never a second proposal)
+			var inA, inB bool
+			for _, nd := range net.Nodes {
+				if nd.Srv == nil {
+					continue
+				}
+				props, _, _ := nd.Srv.SimCandidate(h)
+				for _, p := range props {
+					if p.Proposer != pa {
+						continue
+					}
+					if p.BlockHash == a {
+						inA = true
+					}
+					if p.BlockHash == b {
+						inB = true
+					}
+				}
+			}
+			if pn := net.Nodes[pa-1]; inA && inB && !pn.Byz && !pn.Crashed {
+				return "honest-proposer-two-proposals"
+			}
 			return "same-proposer-two-blocks"
 		}
 	}
